@@ -225,3 +225,6 @@ func CaptureStderr(f func()) string {
 	tmp.Close()
 	return string(b)
 }
+
+// Thorough reports whether the check runs in the thorough tier (deeper bounds).
+func Thorough() bool { return os.Getenv("VERIF_TIER") == "thorough" }
